@@ -81,7 +81,10 @@ type PropertyDecl struct {
 	// Callers: every function (of the loaded packages) that statically calls one of these is a root as well;
 	// one without a contract is a binding failure (e.g. a new producer-side use of the out ring).
 	Callers []string
-	Pkg     string
+	// Stops: the closure of this property does not descend into these functions (their contracts are still what
+	// callers are checked against; their bodies are verified by the properties that list them as roots)
+	Stops []string
+	Pkg   string
 }
 
 type ContractSet struct {
@@ -312,7 +315,8 @@ func (cs *ContractSet) addClause(cur **Contract, pkgPath, pos, text string) erro
 		id := fields[1]
 		r0 := strings.TrimSpace(strings.TrimPrefix(rest, id))
 		isCallers := strings.HasPrefix(r0, "callers")
-		r := strings.TrimSpace(strings.TrimPrefix(strings.TrimPrefix(r0, "roots"), "callers"))
+		isStops := strings.HasPrefix(r0, "stops")
+		r := strings.TrimSpace(strings.TrimPrefix(strings.TrimPrefix(strings.TrimPrefix(r0, "roots"), "callers"), "stops"))
 		pd := cs.Props[id]
 		if pd == nil {
 			pd = &PropertyDecl{ID: id}
@@ -321,6 +325,10 @@ func (cs *ContractSet) addClause(cur **Contract, pkgPath, pos, text string) erro
 		for _, x := range strings.Split(r, ",") {
 			x = strings.TrimSpace(x)
 			if x != "" {
+				if isStops {
+					pd.Stops = append(pd.Stops, qualify(pkgPath, x))
+					continue
+				}
 				if isCallers {
 					if strings.HasPrefix(x, "net.") || strings.HasPrefix(x, "io.") {
 						// a method of a standard-library interface: the key is the plain name (net.Conn.SetReadDeadline)
